@@ -820,9 +820,85 @@ def copy_propagate(fn):
                     and st.value.id not in params and st.value.id != 'self':
                 active[st.value.id] = st.targets[0]
         return out
-    res = block(fn.body, {})
+    res = alias_inline(fn, block(fn.body, {}))
     fn._sa_copyprop = (fn.body, res)
     return res
+
+
+def tame_aliases(fn):
+    """locals that are nothing but another name for a container / object held in an attribute:  `x = <chain>.attr`  where x is assigned
+    exactly once, the chain is made of names and attributes only, its root is a parameter (or self) that is never re-assigned, `attr` is not
+    stored to anywhere in the function (so the attribute still refers to the same object wherever x is used) and x is not a loop target.
+    -> {x: chain expression}.  Reading x and reading the chain then denote the same object."""
+    params = {a.arg for a in fn.args.args + fn.args.kwonlyargs}
+    stores, attr_stores, defs = {}, set(), {}
+    for n in ast.walk(fn):
+        if isinstance(n, ast.Name) and isinstance(n.ctx, (ast.Store, ast.Del)):
+            stores[n.id] = stores.get(n.id, 0) + 1
+        elif isinstance(n, ast.Attribute) and isinstance(n.ctx, (ast.Store, ast.Del)):
+            attr_stores.add(n.attr)
+        elif isinstance(n, (ast.FunctionDef, ast.Lambda)) and n is not fn:
+            return {}
+    for n in ast.walk(fn):
+        if isinstance(n, ast.Assign) and len(n.targets) == 1 and isinstance(n.targets[0], ast.Name) and isinstance(n.value, ast.Attribute):
+            x = n.targets[0].id
+            chain, ok = n.value, True
+            while isinstance(chain, ast.Attribute):
+                if chain.attr in attr_stores:
+                    ok = False
+                chain = chain.value
+            if not ok or not isinstance(chain, ast.Name) or chain.id not in params or stores.get(chain.id, 0) or stores.get(x, 0) != 1 or x in params:
+                continue
+            defs[x] = n
+    return {x: n.value for x, n in defs.items()}
+
+
+def alias_inline(fn, stmts):
+    """statements in which every read of a tame alias (see tame_aliases) is replaced by the attribute chain it stands for, so that
+    `waiting = self._waiting_requests; waiting.pop(i)` is analysed as `self._waiting_requests.pop(i)`.  Only aliases of attributes whose
+    name suggests a container or a collaborator object are inlined when their uses are object-like (method call, subscript, attribute):
+    a local that *copies a value* (`old = self._count`) keeps its own identity."""
+    import copy
+    al = tame_aliases(fn)
+    if not al:
+        return stmts
+    # keep only aliases all of whose uses are object-like: x.m(...), x[...], x.attr, len(x), iteration, membership
+    par = {}
+    for n in ast.walk(fn):
+        for ch in ast.iter_child_nodes(n):
+            par[ch] = n
+    keep = {}
+    for x, chain in al.items():
+        uses = [n for n in ast.walk(fn) if isinstance(n, ast.Name) and n.id == x and isinstance(n.ctx, ast.Load)]
+        def objlike(n):
+            p = par.get(n)
+            return (isinstance(p, ast.Attribute) and p.value is n) or (isinstance(p, ast.Subscript) and p.value is n) or \
+                   (isinstance(p, ast.Call) and isinstance(p.func, ast.Name) and p.func.id in ('len', 'list', 'iter', 'enumerate', 'sorted', 'reversed', 'tuple') and n in p.args) or \
+                   (isinstance(p, (ast.For, ast.comprehension)) and p.iter is n) or \
+                   (isinstance(p, ast.Compare) and isinstance(p.ops[0], (ast.In, ast.NotIn)) and n in p.comparators)
+        if uses and all(objlike(n) for n in uses):
+            keep[x] = chain
+    if not keep:
+        return stmts
+
+    class Sub(ast.NodeTransformer):
+        changed = False
+
+        def visit_Name(self, n):
+            if isinstance(n.ctx, ast.Load) and n.id in keep:
+                Sub.changed = True
+                return ast.copy_location(copy.deepcopy(keep[n.id]), n)
+            return n
+    out = []
+    for st in stmts:
+        Sub.changed = False
+        new = Sub().visit(copy.deepcopy(st))
+        if Sub.changed:
+            ast.fix_missing_locations(new)
+            out.append(new)
+        else:
+            out.append(st)
+    return out
 
 
 
